@@ -38,12 +38,14 @@ for h in checks[pid]['harnesses']:
 targets = [f'{B}/bin/{n}.{cv}' for n, cv, _ in hs]
 print('building', ' '.join(os.path.basename(t) for t in targets), flush=True)
 subprocess.check_call(['make', '-s', '-j16', '-C', ROOT, f'REPO={REPO}'] + targets)
+# only this property's harness objects are reset: audits of different properties may run concurrently; the counters of the few
+# non-header kernel sources (k/) accumulate over all audits (an over-approximation of their coverage)
 for n, cv, h in hs:
-    for f in glob.glob(f'{B}/{cv}/**/*.gcda', recursive=True): os.remove(f)
+    for f in glob.glob(f'{B}/{cv}/h/{n}.gcda'): os.remove(f)
 for n, cv, h in hs:
     env = dict(os.environ); env.update(h.get('env', {}))
     # own output root: the audit must not touch evidence parts / replays of the real checks
-    croot = f'{B}/covroot'; os.makedirs(croot, exist_ok=True); shutil.copy(f'{ROOT}/known_findings.txt', croot)
+    croot = f'{B}/covroot.{pid}'; os.makedirs(croot, exist_ok=True); shutil.copy(f'{ROOT}/known_findings.txt', croot)
     env['VERIF_ROOT'] = croot; env['VERIF_DEADLINE_S'] = deadline; env['VERIF_SCRATCH'] = f'{B}/covscratch'
     os.makedirs(env['VERIF_SCRATCH'], exist_ok=True)
     cmd = [f'{B}/bin/{n}.{cv}', '--tier', tier, '--jobs', '16'] + h.get('args', [])
@@ -54,10 +56,12 @@ for n, cv, h in hs:
 # gcov over all object files of the cov variants
 fn = collections.defaultdict(lambda: collections.defaultdict(lambda: [0, 0]))   # file -> (name,start) -> [count, end]
 ln = collections.defaultdict(dict)                                             # file -> line -> count
-work = f'{B}/covwork'; shutil.rmtree(work, ignore_errors=True); os.makedirs(work)
+work = f'{B}/covwork.{pid}'; shutil.rmtree(work, ignore_errors=True); os.makedirs(work)
 objs = []
 for cv in sorted(set(cv for _, cv, _ in hs)):
-    objs += glob.glob(f'{B}/{cv}/h/*.gcda') + glob.glob(f'{B}/{cv}/k/**/*.gcda', recursive=True)
+    objs += glob.glob(f'{B}/{cv}/k/**/*.gcda', recursive=True)
+for n, cv, h in hs:
+    objs += glob.glob(f'{B}/{cv}/h/{n}.gcda')
 for g in objs:
     subprocess.run(['gcov', '-j', '-m', '-o', os.path.dirname(g), g], cwd=work, stdout=subprocess.DEVNULL, stderr=subprocess.DEVNULL)
 for jf in glob.glob(work + '/*.gcov.json.gz'):
